@@ -9,6 +9,7 @@ instantiated with the regenerated facts in Model/RtspWireInst.lean (`genCfg`, `g
 import IpcHub.Lemmas.RtspWireStream
 import IpcHub.Lemmas.RtspWirePanic
 import IpcHub.Lemmas.RtspWireCanon
+import IpcHub.Lemmas.RtspWirePrefix
 import IpcHub.Model.RtspWireInst
 namespace IpcHub.Props.C14
 open IpcHub.RtspWire
@@ -133,6 +134,22 @@ theorem c14_receive_one {U : Type} (ops : UrlOps U) (chans : List Int) (it : Ite
     receive genCfg ops chans (it.wire ops genStatusTable chans ++ rest) = .ok (it.event genCfg genStatusTable, rest) :=
   receive_item genCfg ops genStatusTable chans 16384 1048576 c14_codec_facts.1 c14_codec_facts.2.1 (by decide)
     (c14_canonical_names_fixed _ c14_codec_facts.2.2.2.2.2.2.2.1) it hok rest
+
+/-- `c14_chunking` (prefix stability), for EVERY byte string — written by the codec or not: if
+    `receive` (or one of the three readers) returned an item for the bytes that had arrived, it
+    returns the same item when more bytes follow, and leaves exactly those extra bytes behind in
+    addition.  Hence the item a reader delivers, and the position it leaves, depend only on the
+    bytes of that item, not on how much more of the stream has already arrived — i.e. not on
+    how the stream is cut into read chunks. -/
+theorem c14_chunking {U : Type} (ops : UrlOps U) (chans : List Int) (s t : Bytes) :
+    (∀ ev r, receive genCfg ops chans s = .ok (ev, r) → receive genCfg ops chans (s ++ t) = .ok (ev, r ++ t)) ∧
+    (∀ q r, readRequest genCfg ops s = .ok (q, r) → readRequest genCfg ops (s ++ t) = .ok (q, r ++ t)) ∧
+    (∀ q r, readResponse genCfg s = .ok (q, r) → readResponse genCfg (s ++ t) = .ok (q, r ++ t)) ∧
+    (∀ o r, readPacket genCfg chans s = .ok (o, r) → readPacket genCfg chans (s ++ t) = .ok (o, r ++ t)) :=
+  ⟨fun ev r h => receive_stable genCfg c14_codec_facts.2.2.1 ops chans s ev r h t,
+   fun q r h => readRequest_stable genCfg c14_codec_facts.2.2.1 ops s q r h t,
+   fun q r h => readResponse_stable genCfg c14_codec_facts.2.2.1 s q r h t,
+   fun o r h => readPacket_stable genCfg chans s o r h t⟩
 
 /-- field names are case-insensitive: a name that equals a known field up to ASCII case reads
     back in the canonical spelling, any other ASCII name unchanged -/
